@@ -75,6 +75,39 @@ def run(facts, rep, floor=0):
             else:
                 rep.ok(R, key, "rebuilt through position-preserving adaptors only (%s)" % ", ".join(names), facts.loc(p, x),
                        sample={"function": p, "chain": names})
+        # loop-based rebuild: `for slot in old_table { new_table.push(..) }` must push once per slot, unconditionally
+        from facts import Tree as _Tree
+        tree = None
+        for lp in walk(body):
+            if lp.get("k") != "For":
+                continue
+            it_ = strip(lp["iter"])
+            while it_.get("k") == "MCall" and it_.get("name") in KEEP and it_.get("name") != "collect":
+                it_ = strip(it_["recv"])
+            if not _is_table(facts, it_) and not _is_table(facts, lp["iter"]):
+                continue
+            pushes = [y for y in walk(lp["body"]) if y.get("k") == "MCall" and y.get("name") == "push" and _is_table(facts, y["recv"])]
+            if not pushes:
+                continue
+            tree = tree or _Tree(body)
+            n += 1
+            rep.fn(p)
+            key = "%s/rebuild-loop#%d" % (p, k_site)
+            k_site += 1
+            cond = False
+            for y in pushes:
+                for a in tree.ancestors(y):
+                    if a is lp:
+                        break
+                    if a.get("k") in ("If", "Match", "While", "Loop", "Closure"):
+                        cond = True
+            skips = any(y.get("k") in ("Continue", "Break") for y in walk(lp["body"]))
+            if cond or skips or len(pushes) != 1:
+                rep.violation(R, key, "the key table is rebuilt by a loop over the old table whose push is conditional (or skipped by "
+                              "continue / break, or repeated): populated keys do not keep their slots although the table is addressed "
+                              "by position", facts.loc(p, lp))
+            else:
+                rep.ok(R, key, "one unconditional push per slot of the old table", facts.loc(p, lp), sample={"function": p})
         # in-place re-indexing calls on a table
         for x in walk(body):
             if x.get("k") == "MCall" and x.get("name") in ("retain", "dedup", "dedup_by", "dedup_by_key", "remove", "swap_remove", "sort",
